@@ -384,3 +384,6 @@ def run(rep, programs):
                   "applied to some other tree that matches class/free", ss[0][1]["span"])
     rep.check(good, "R-CHANGE-GUARD", "Trees::change|search-domain", "a change without id searches all trees: search(_, 0, self.len(), ..)",
               "Trees::change does not search the whole tree array (offset/len arguments changed)", tc.span)
+    # the tree id given to change_tree / Online selects entries[..] and, times TREE_FRAMES, the frames whose statistics are restored
+    from props import c01
+    c01.r_units(rep, prog)
